@@ -38,8 +38,15 @@ impl digital::Error for Fault {
     }
 }
 impl spi::Error for Fault {
+    /// every kind a HAL may report (a driver has no business treating some kinds as harmless)
     fn kind(&self) -> spi::ErrorKind {
-        spi::ErrorKind::Other
+        match self.op % 5 {
+            0 => spi::ErrorKind::Other,
+            1 => spi::ErrorKind::Overrun,
+            2 => spi::ErrorKind::ModeFault,
+            3 => spi::ErrorKind::FrameFormat,
+            _ => spi::ErrorKind::ChipSelectFault,
+        }
     }
 }
 
@@ -127,6 +134,10 @@ pub struct TlInner {
     pub spi_bytes: u64,
     pub pin_writes: u64,
     pub rst_writes: u64,
+    /// reset-pin handles dropped so far (a HAL pin that is dropped stops driving its line)
+    pub rst_pins_dropped: u64,
+    /// did the last `Display::release()` hand a reset pin back?
+    pub released_rst: Option<bool>,
     pub wr_edges: u64,
     pub l1_calls: u64,
     /// cap on the number of pixel words an L1 `send_pixels` call may deliver
@@ -167,6 +178,8 @@ impl Tl {
             spi_bytes: 0,
             pin_writes: 0,
             rst_writes: 0,
+            rst_pins_dropped: 0,
+            released_rst: None,
             wr_edges: 0,
             l1_calls: 0,
             l1_word_cap: 1 << 26,
@@ -335,6 +348,16 @@ impl TlInner {
 pub struct Pin {
     tl: Tl,
     src: Src,
+}
+
+impl Drop for Pin {
+    fn drop(&mut self) {
+        if self.src == Src::Rst {
+            if let Ok(mut t) = self.tl.0.try_borrow_mut() {
+                t.rst_pins_dropped += 1;
+            }
+        }
+    }
 }
 
 impl Pin {
